@@ -24,7 +24,7 @@ def run_gen(ctx, exe, cases, tag="gen", timeout=1200):
     results = {}
     pending = list(cases)
     guard = 0
-    while pending and guard < 50:
+    while pending and guard < 200:
         guard += 1
         path = os.path.join(ctx.work, f"{tag}_cases.jsonl")
         with open(path, "w") as f:
@@ -51,6 +51,9 @@ def run_gen(ctx, exe, cases, tag="gen", timeout=1200):
             results[killer["id"]] = {"id": killer["id"], "status": "abort", "message": f"process died (rc={p.returncode})"}
             pending = pending[n + 1:]
         os.remove(path)
+    for c in pending:
+        # more process deaths than the retry budget: the rest was never run; say so instead of leaving holes
+        results[c["id"]] = {"id": c["id"], "status": "abort", "message": "not run: the generator process died on too many earlier cases of this batch"}
     return results
 
 
